@@ -29,7 +29,8 @@ Definition hsample : htable :=
      ht_anns := [blk 5 5 (tx 2 0)];
      ht_values := true;
      ht_rules := [(blk 1 3 [32; 49]%N, [blk 1 4 (tx 3 0); blk 1 4 (tx 3 1)], [blk 1 4 (tx 4 0); blk 1 4 (tx 4 1)], [blk 1 5 (tx 5 0)]);
-                  (blk 1 3 [32; 50]%N, [blk 1 4 (tx 6 0); blk 1 4 (tx 6 1)], [blk 1 4 (tx 7 0); blk 1 4 (tx 7 1)], [blk 1 5 (tx 8 0)])] |}.
+                  (blk 1 3 [32; 50]%N, [blk 1 4 (tx 6 0); blk 1 4 (tx 6 1)], [blk 1 4 (tx 7 0); blk 1 4 (tx 7 1)], [blk 1 5 (tx 8 0)])];
+     ht_merge := [] |}.
 
 (* the same table with one output (its label in the name line), no label line, no values, no annotation: one header line *)
 Definition hsample1 : htable :=
@@ -40,7 +41,31 @@ Definition hsample1 : htable :=
      ht_outs := [(blk 2 4 (tx 1 0), [])];
      ht_anns := [];
      ht_values := false;
-     ht_rules := [(blk 1 3 [32; 49]%N, [blk 1 4 (tx 3 0)], [blk 1 4 (tx 4 0)], [])] |}.
+     ht_rules := [(blk 1 3 [32; 49]%N, [blk 1 4 (tx 3 0)], [blk 1 4 (tx 4 0)], [])];
+     ht_merge := [] |}.
+
+(* two inputs, three rules; the entries of the first input in the rules 1 and 2 are one merged cell of three lines
+    ┌───┬────┬────╥────┐
+    │ U │Aa  │Ab  ║Ba  │
+    ╞═══╪════╪════╬════╡
+    │ 1 │Da  │Db  ║Ea  │
+    ├───┤    ├────╫────┤
+    │ 2 │    │Gb  ║Ha  │
+    ├───┼────┼────╫────┤
+    │ 3 │Ja  │Jb  ║Ka  │
+    └───┴────┴────╨────┘  *)
+Definition hsample2 : htable :=
+  {| ht_ws := [3; 4; 4; 4]; ht_hs := [1; 1; 1; 1];
+     ht_hp := blk 1 3 [32; 85]%N;
+     ht_ins := [(blk 1 4 (tx 0 0), []); (blk 1 4 (tx 0 1), [])];
+     ht_label := None;
+     ht_outs := [(blk 1 4 (tx 1 0), [])];
+     ht_anns := [];
+     ht_values := false;
+     ht_rules := [(blk 1 3 [32; 49]%N, [blk 3 4 (tx 3 0); blk 1 4 (tx 3 1)], [blk 1 4 (tx 4 0)], []);
+                  (blk 1 3 [32; 50]%N, [blk 3 4 (tx 3 0); blk 1 4 (tx 6 1)], [blk 1 4 (tx 7 0)], []);
+                  (blk 1 3 [32; 51]%N, [blk 1 4 (tx 9 0); blk 1 4 (tx 9 1)], [blk 1 4 (tx 10 0)], [])];
+     ht_merge := [(0, 0, 1)] |}.
 
 Definition php (s : htable) (x : N) : option N := if (x =? code (btext (ht_hp s)))%N then Some 1%N else None.
 Definition pnum (s : htable) (x : N) : option nat :=
@@ -70,6 +95,9 @@ Definition hsample_line (y : nat) : list N := nth y (mgrid (header_drawing hsamp
 Lemma headers_sweep :
   wf_htable hsample = true /\ hplane_ok hsample = true /\ htable_ok hsample = true /\ parsers_ok hsample = true /\
   wf_htable hsample1 = true /\ hplane_ok hsample1 = true /\ htable_ok hsample1 = true /\ parsers_ok hsample1 = true /\
+  wf_htable hsample2 = true /\ hplane_ok hsample2 = true /\ htable_ok hsample2 = true /\ parsers_ok hsample2 = true /\
+  md_reg (header_drawing hsample2) 1 1 = (1, 1, 3, 2) /\ md_reg (header_drawing hsample2) 2 1 = (1, 1, 3, 2) /\
+  nth 4 (mgrid (header_drawing hsample2)) [] = [9500; 9472; 9472; 9472; 9508; 32; 32; 32; 32; 9500; 9472; 9472; 9472; 9472; 9579; 9472; 9472; 9472; 9472; 9508]%N /\
   h_hdr hsample = 3 /\ h_hdr hsample1 = 1 /\ mcols (header_drawing hsample) = 6 /\ mrows (header_drawing hsample) = 5 /\
   length (drawm (header_drawing hsample)) = 352 /\
   hsample_line 1 = [9474; 32; 85; 32; 9474; 65; 97; 32; 32; 9474; 65; 98; 32; 32; 9553; 76; 66; 32; 32; 32; 32; 32; 32; 32; 9553; 67; 97; 32; 32; 32; 9474]%N /\
